@@ -40,7 +40,7 @@ def _case(draw, tier):
     names = [t["name"] for t in desc["targets"]]
     vec = {n: draw(st.sampled_from(["unknown", "unknown", "completed", "failed", "cancelled"])) for n in names}
     rounds = draw(st.lists(st.tuples(st.sampled_from(["modify", "delete"]), st.integers(0, 20)), min_size=1, max_size=3))
-    return {"desc": desc, "backend": draw(st.sampled_from(["slurm", "slurm", "sge", "lsf"])),
+    return {"desc": desc, "invoke": draw(gen.invoke()), "backend": draw(st.sampled_from(["slurm", "slurm", "sge", "lsf"])),
             "accounting": draw(st.sampled_from([True, True, False])), "vector": vec,
             "hashing": draw(st.sampled_from([False, True])),
             "order": draw(st.lists(st.integers(0, 7), min_size=0, max_size=40)),
@@ -66,7 +66,7 @@ def run_case(case):
     ties = list(case["ties"])
     exec_log = []
 
-    with project.Project(desc, backend=flavour, config=cfg) as proj:
+    with project.Project(desc, backend=flavour, config=cfg, invoke=case.get("invoke")) as proj:
         R0 = model.Resolved(desc)
         sources = {p: (t if t is not None else 1) for p, t in desc["files"].items() if p not in R0.producers}
         links = set(sources) if case.get("symlink_sources") else set()
